@@ -37,7 +37,7 @@ func init() {
 			fs.Tri("namesVerbatim", TriOf(okNames), path+":"+itoa(f.Line(cd)))
 		}
 		// up-front key validation: the first statement of Save is `for key := range items { if key == "" || strings.Contains(key, "/") { …; return } }`
-		if sv := f.Func("hydrex", "Save"); sv != nil && sv.Body != nil && len(sv.Body.List) > 0 {
+		if sv := miscFunc(f, "hydrex", "Save"); sv != nil && sv.Body != nil && len(sv.Body.List) > 0 {
 			v := No
 			if rs, ok := sv.Body.List[0].(*ast.RangeStmt); ok && f.Str(rs.X) == "items" && len(rs.Body.List) == 1 {
 				if is, ok := rs.Body.List[0].(*ast.IfStmt); ok && f.Str(is.Cond) == `key == "" || strings.Contains(key, "/")` && len(is.Body.List) > 0 {
@@ -48,8 +48,8 @@ func init() {
 			}
 			fs.Tri("validatesKeys", v, path+":"+itoa(f.Line(sv)))
 		}
-		save := f.Func("hydrex", "Save")
-		destroy := f.Func("hydrex", "Destroy")
+		save := miscFunc(f, "hydrex", "Save")
+		destroy := miscFunc(f, "hydrex", "Destroy")
 		if save == nil || destroy == nil || save.Body == nil || destroy.Body == nil {
 			return
 		}
@@ -71,8 +71,15 @@ func init() {
 					strings.Contains(body, "SwampName: h.createIndexName(indexName, key)") && strings.Contains(body, "Keys: []string{domain}")
 				calls := f.Contains(save, "CatalogDeleteManyFromMany(ctx, deleteManyFromManyReq,") &&
 					f.Contains(save, "CatalogDeleteMany(ctx, coreDataName, itemsForDelete,")
-				if shape {
-					fs.Tri("saveRemovesStale", TriOf(fills && calls), path+":"+itoa(f.Line(rs)))
+				// `no` needs positive evidence: the loop collects the stale keys as modelled, and one of the two delete calls is
+				// ABSENT from Save altogether; anything else that does not match stays unknown
+				noIdx := len(f.CallsSuffix(save, ".CatalogDeleteManyFromMany")) == 0
+				noCore := len(f.CallsSuffix(save, ".CatalogDeleteMany")) == 0
+				switch {
+				case shape && fills && calls:
+					fs.Tri("saveRemovesStale", Yes, path+":"+itoa(f.Line(rs)))
+				case shape && fills && (noIdx || noCore):
+					fs.Tri("saveRemovesStale", No, path+":"+itoa(f.Line(rs)))
 				}
 			case "items":
 				body := f.Str(rs.Body)
@@ -95,7 +102,12 @@ func init() {
 			collects := f.Contains(reads[0], "deleteManyFromManyReq = append(deleteManyFromManyReq") &&
 				f.Contains(reads[0], "SwampName: h.createIndexName(indexName, m.Key)") && f.Contains(reads[0], "Keys: []string{domain}")
 			calls := f.Contains(destroy, "CatalogDeleteManyFromMany(ctx, deleteManyFromManyReq,")
-			fs.Tri("destroyCleansIndex", TriOf(collects && calls), path+":"+itoa(f.Line(destroy)))
+			switch {
+			case collects && calls:
+				fs.Tri("destroyCleansIndex", Yes, path+":"+itoa(f.Line(destroy)))
+			case len(f.CallsSuffix(destroy, ".CatalogDeleteManyFromMany")) == 0:
+				fs.Tri("destroyCleansIndex", No, path+":"+itoa(f.Line(destroy)))
+			}
 		}
 	}})
 }
